@@ -47,11 +47,20 @@ def scalar_model(cols):
 
 
 # ---------------------------------------------------------------- relational schema
+class City(Base):
+    __tablename__ = "sa_city"
+    id = sa.Column(sa.Integer, primary_key=True)
+    name = sa.Column(sa.String, nullable=False)
+    people = relationship("Person", back_populates="city")
+
+
 class Person(Base):
     __tablename__ = "sa_person"
     id = sa.Column(sa.Integer, primary_key=True)
     name = sa.Column(sa.String, nullable=False)
     age = sa.Column(sa.Integer)
+    city_id = sa.Column(sa.Integer, sa.ForeignKey("sa_city.id"), nullable=False)   # NOT NULL hop
+    city = relationship("City", back_populates="people")
     blogs = relationship("Blog", back_populates="owner")
     posts = relationship("Post", back_populates="author")
 
@@ -85,6 +94,8 @@ class Post(Base):
     score = sa.Column(sa.Integer, nullable=False)
     blog_id = sa.Column(sa.Integer, sa.ForeignKey("sa_blog.id"))
     author_id = sa.Column(sa.Integer, sa.ForeignKey("sa_person.id"))
+    owner_id = sa.Column(sa.Integer, sa.ForeignKey("sa_city.id"))
+    owner = relationship("City")
     blog = relationship("Blog", back_populates="posts")
     author = relationship("Person", back_populates="posts")
     tags = relationship("Tag", secondary=post_tags, back_populates="posts")
@@ -106,8 +117,8 @@ _REL_READY = False
 def relational():
     global _REL_READY
     if not _REL_READY:
-        for cls in (Person, Blog, Tag, Post, Comment):
+        for cls in (City, Person, Blog, Tag, Post, Comment):
             cls.__table__.create(engine())
         post_tags.create(engine())
         _REL_READY = True
-    return {"Person": Person, "Blog": Blog, "Tag": Tag, "Post": Post, "Comment": Comment, "post_tags": post_tags}
+    return {"City": City, "Person": Person, "Blog": Blog, "Tag": Tag, "Post": Post, "Comment": Comment, "post_tags": post_tags}
